@@ -173,7 +173,8 @@ def get_object_as_xml_polymorphic(inst, cls=None, root_tag_name=None,
     if no_namespace:
         _dig(parent)
 
-    etree.cleanup_namespaces(parent)
+    # keeps the prefixes that are only used by xsi:type values
+    app.out_protocol._cleanup_namespaces(parent)
 
     return parent[0]
 
